@@ -36,7 +36,8 @@ Print Assumptions C29_type_match_correct.
    the index invariant in which neither the target nor a node is an aggregating reference type:
    there is a set D of deleted ids such that the target is in D, exactly the nodes in D are gone,
    exactly the references from or to an id in D are gone (forward map and inverse index), D is
-   closed under "aggregated node of" and is the least such set. *)
+   closed under "node aggregated by a node of" (an id that is not a node has no children: only its
+   references are removed) and is the least such set. *)
 Theorem C29_effect : forall st0 target b st',
   Inv (rs st0) ->
   (forall d, d = target \/ In d (nodes st0) -> tmA (fwd (rs st0)) d = false) ->
@@ -47,8 +48,8 @@ Theorem C29_effect : forall st0 target b st',
     Inv (rs st') /\
     (forall y r, In r (F (rs st') y) <-> In r (F (rs st0) y) /\ ~ In y D /\ ~ In (snd r) D) /\
     (forall d, In d D -> R (rs st') d = [] /\ forall y, ~ In d (R (rs st') y)) /\
-    (forall x r, In x D -> In r (F (rs st0) x) -> tmA (fwd (rs st0)) (fst r) = true ->
-                 In (snd r) (nodes st0) -> In (snd r) D) /\
+    (forall x r, In x D -> In x (nodes st0) -> In r (F (rs st0) x) ->
+                 tmA (fwd (rs st0)) (fst r) = true -> In (snd r) (nodes st0) -> In (snd r) D) /\
     (forall C, closedset st0 C -> In target C -> incl D C).
 Proof. exact delete_effect. Qed.
 Print Assumptions C29_effect.
